@@ -55,7 +55,8 @@ QUALS = {"const", "volatile", "struct", "class", "enum", "typename", "restrict",
 
 
 def tokenize(s):
-    s = s.replace("(anonymous namespace)::", "").replace("(lambda at", "lambda_at(")
+    s = s.replace("(anonymous namespace)::", "")
+    s = re.sub(r"\(lambda at [^()]*\)", "vf_lambda", s)  # closure types: modelled like std::function (struct vf_fn)
     pos, out = 0, []
     while pos < len(s):
         m = _tok_re.match(s, pos)
@@ -461,7 +462,7 @@ class TypeMap:
             return "struct vf_opt_" + tg
         if last in ("atomic", "__atomic_base") and t.args:
             return self.c(t.args[0])
-        if last == "function" and t.args:
+        if (last == "function" and t.args) or name == "vf_lambda":
             return "struct vf_fn"
         if last == "array" and len(t.args) == 2 and t.args[1].kind == "lit":
             e = self.c(t.args[0])
